@@ -112,6 +112,9 @@ Fixpoint validate_op (gs : gateset) (o : opd) : bool :=
   | OOther _ => false
   end.
 Definition validate (gs : gateset) (ops : list opd) : bool := forallb (validate_op gs) ops.
+(* a CircuitOperation with |repetitions| = n stands for n copies of one iteration of its mapped body (the body with the qubit
+   map and the parameter resolver applied, inverted when the repetitions are negative) *)
+Fixpoint repeat_ops (n : nat) (b : list opd) : list opd := match n with O => [] | S k => b ++ repeat_ops k b end.
 (* `op in gateset` (Gateset.__contains__ on an operation, used by the devices): operations with a gate go
    straight to the families (no intermediate-tag check), the others through _validate_operation *)
 Definition op_in_gateset (gs : gateset) (o : opd) : bool :=
